@@ -15,6 +15,7 @@ func init() { register("C05", checkC05) }
 func checkC05(p *load.Program, r *kit.Report) {
 	r.NotDecided = "everything about which blocks are requested for a given chain/processed set, reorg timing and failure recovery over histories; strictly-ascending contiguous processing as an observed sequence. Decided are the guards, pairing and signalling facts necessary for it."
 	r.Rule("GUARD-DOM", "synchronizeBlocks returns before any request when the tip is below StartBlockHeight; a block is prepended to the request list only behind height > StartBlockHeight and a not-yet-processed answer of FetchBlockTxIDs; close(abort) only for a non-nil channel of the current request", 4)
+	r.Rule("LOOP-EXITS", "the walk back from the tip stops (and requests are issued) only at the configured start height or at a block whose processed marker exists; there is no other way from the walk to AddRequest", 1)
 	r.Rule("LOCKSTEP", "walking back prepends one hash and decrements the height in the same step; requests are issued for hashes[k] with height = first height + k (ascending, contiguous)", 2)
 	r.Rule("MUST-PASS", "between two AddRequest calls a receive from the current request's complete channel lies on every path (one request in flight); after a non-nil completion error no further request is issued in this round; abort is closed at most once per request", 2)
 	r.Rule("LOCKSET", "blockSyncNeeded/blockManagerThread are accessed under blockManagerLock; the restart flag is read and cleared in one critical section", 6)
@@ -157,6 +158,32 @@ func checkC05(p *load.Program, r *kit.Report) {
 			}
 		}
 		r.Check(bad == "", "GUARD-DOM", "synchronizeBlocks/skip-processed", posOf(p, prepend), "prepend only behind FetchBlockTxIDs → not exists", bad)
+		// the walk back ends (and requests follow) only at the start height or at a processed block:
+		// with those two exits closed no request is reachable. Any other way out of the walk that
+		// goes on to request blocks (e.g. a height remembered from an earlier round) leaves best-chain
+		// blocks below the stopping point unrequested after a reorg.
+		if fetch != nil && len(gs) > 0 {
+			var closed []kit.Edge
+			for _, g := range gs {
+				closed = append(closed, g.FailEdge())
+			}
+			// every `exists` answer of FetchBlockTxIDs (before and inside the walk)
+			kit.AllInstrs(f, func(in ssa.Instruction) {
+				c, ok := in.(*ssa.Call)
+				if !ok || !c.Call.IsInvoke() || c.Call.Method.Name() != "FetchBlockTxIDs" {
+					return
+				}
+				for _, g := range kit.FindGuards(f, func(v ssa.Value) (bool, bool) {
+					e, ok := v.(*ssa.Extract)
+					return ok && e.Tuple == ssa.Value(c) && e.Index == 1, true
+				}) {
+					closed = append(closed, g.PassEdge())
+				}
+			})
+			ok, path := kit.DominatedByEdges(f, add, closed, nil, p.Pos)
+			r.Check(ok, "LOOP-EXITS", "synchronizeBlocks/walk-exits", posOf(p, prepend), "requests are only reachable through the start-height exit or the processed-block exit of the walk back",
+				"the walk back can stop, and blocks be requested, without having reached the start height or a processed block: "+path)
+		}
 	}
 	// (b) request heights
 	{
